@@ -31,4 +31,11 @@ META = {
         "note": "Trusted: Lean kernel; amx translation of the method bodies; SC atomics; usize as Nat. Tie: Gen/Rid.lean is regenerated from the source each run and the rid engine diffs the public API (sequential bounded-exhaustive + random + free-running threads) against the model.",
         "technique": "Lean 4 proof over model regenerated from source + differential correspondence",
     },
+    "C12": {
+        "text": "Theorems over a transcription of id_of_path / NotifyEventHandler::handle_event / path_of_entry whose decision tables (event kind -> {path, parent}; component kind -> push/pop/skip/fail) are regenerated from src/hot_reloading/watcher.rs: id_of_path inverts path_of for every valid non-root entry under every root (round trip, injectivity), `.` and `x/..` detours do not change the result, paths outside the root or with a non-UTF-8 / dotted component yield nothing, the handler loses its watcher only through a failed send, membership characterisation for several roots. Full-strength statements for the root directory and for the create/rename/delete table are stated and REFUTED with kernel-checked witnesses (F-C12a/b/c reproduced on the real code by the oracle with replays); the `_partial` theorems give the exact batch per kind and depth. Unbounded in depth, names, number of roots and events.",
+        "design_ref": "DESIGN.md section 6 C12",
+        "note": "Trusted: Lean kernel; amx (table extraction); std::path::components(); notify; the OS file system (is_dir is a model parameter). Tie: Gen/Watch.lean regenerated each run; the watch engine feeds the real handler (hook H1) synthetic notify events about real entries of a temp dir and diffs events, id_of_path and FileSystem::path_of against the model; independent oracle from the statement; thorough tier adds real inotify histories through the public FsWatcherBuilder.",
+        "technique": "Lean 4 proof over model with tables regenerated from source + differential correspondence",
+    },
 }
+
